@@ -115,3 +115,10 @@ reg("C15", MC, "bounded exhaustive enumeration of integer data subsets x lattice
     "distances and any admissible set accepted. median_distance (self excluded) and distance_mask (closed ball, projection applied to both "
     "point sets, array and grid forms, thresholds at every exactly representable distance and every midpoint) likewise.",
     "cKDTree path only; equality thresholds only at exactly representable distances.", "DESIGN.md section 5, C15")
+reg("C16", MC, "bounded exhaustive enumeration of lattice point subsets x frames with exact integer hull predicates; grid/hole/projection menu",
+    "convexhull_mask for every k-subset (k <= 4/5) of the 4x4 integer lattice with a non-degenerate hull at all 121 half-unit queries under "
+    "scale/offset frames up to 1e7 and in array and grid form, against a monotone-chain hull with exact orientation tests; project_grid for "
+    "every combination of grid shape, NaN-hole pattern, projection, interpolation method, antialias and requested region/spacing: name, "
+    "dims, regular coordinates of the projected region (exact rational reference), NaN strictly outside / finite strictly inside the hull "
+    "of the projected valid cells, value range, value preservation under affine projection without antialiasing, refusals.",
+    "Qhull refusals are implementation-only failures (counted); boundary band of 3/4 cell with antialiasing.", "DESIGN.md section 5, C16")
